@@ -10,9 +10,10 @@
    order; `bonded_heavy m` = the heavy atoms of positive degree; `bonds_agree_on ids m1 m2` = `bond_between` gives the
    same answer in both molecules for every pair of indices in `ids` (scene_of asks about retained pairs only).
    Atoms are identified by RDKit index, so deleting atoms needs no renaming in the model; RDKit's renumbering after
-   RWMol.RemoveAtom is a monotone relabelling (C03 / the harness). *)
+   RWMol.RemoveAtom is a strictly increasing relabelling: `run_monotone_renaming` / `deleted_renumbered_same_fingerprints`
+   below (Proofs/E3FPRename.v) show that it changes no identifier and no fingerprint. *)
 From E3FP Require Import Base.Prelude Base.ZSet Base.Murmur3 Model.Geometry Model.Stereo Model.Fprint Gen.Constants
-  Gen.AngleTable Model.E3FP Proofs.E3FPScene.
+  Gen.AngleTable Model.E3FP Proofs.E3FPScene Proofs.E3FPRename.
 Open Scope Z_scope.
 
 (* ------------------------------------------------------------------------------------------------ *)
@@ -85,6 +86,51 @@ Theorem floating_coords_irrelevant_run : forall D C fuel o (p : atom D -> vec D)
   run D C fuel o (map_atoms D (fun a => if floating D a then set_pos D a (p a) else a) m) = run D C fuel o m.
 Proof. exact floating_coords_irrelevant_run. Qed.
 Print Assumptions floating_coords_irrelevant_run.
+
+(* ------------------------------------------------------------------------------------------------ *)
+(* RDKit renumbers after a deletion: strictly increasing relabellings change nothing                   *)
+
+(* relabelling all atom indices (atoms and bond end points) by a strictly increasing rho relabels the stored indices of
+   the resulting state and nothing else ... *)
+Theorem run_monotone_renaming : forall D rho, (forall x y, x < y -> rho x < rho y) ->
+  forall C o fuel (m : mol D), run D C fuel o (rename_mol D rho m) = rmap (rstate rho) (run D C fuel o m).
+Proof. exact run_rename. Qed.
+Print Assumptions run_monotone_renaming.
+
+(* ... so the shells are the relabelled shells and every fingerprint (the mask relabelled as well) is identical *)
+Theorem shells_query_renaming : forall rho, (forall x y, x < y -> rho x < rho y) ->
+  forall o st req mask, shells_query o (rstate rho st) req (map rho mask) = map (rsh rho) (shells_query o st req mask).
+Proof. exact shells_query_rename. Qed.
+Print Assumptions shells_query_renaming.
+
+Theorem fingerprint_query_renaming : forall rho, (forall x y, x < y -> rho x < rho y) ->
+  forall o counts bits st req mask,
+  fingerprint_query o counts bits (rstate rho st) req (map rho mask) = fingerprint_query o counts bits st req mask.
+Proof. exact fingerprint_query_rename. Qed.
+Print Assumptions fingerprint_query_renaming.
+
+(* a strictly increasing assignment new index i (0 <= i < n) -> old index olds[i] extends to a strictly increasing map on Z *)
+Theorem extend_mono : forall olds, ssorted olds -> forall x y, x < y -> extend olds x < extend olds y.
+Proof. exact extend_mono. Qed.
+Print Assumptions extend_mono.
+Theorem extend_nth : forall olds i, (i < length olds)%nat -> extend olds (Z.of_nat i) = nth i olds 0.
+Proof. exact extend_nth. Qed.
+Print Assumptions extend_nth.
+
+(* the property as worded: m' = m with the floating atoms removed AND renumbered (rho : new index -> old index).
+   Same exception or, on success, identical fingerprints for every level, fold length, kind and (relabelled) mask. *)
+Theorem deleted_renumbered_same_fingerprints : forall D C rho fuel o (m m' : mol D),
+  (forall x y, x < y -> rho x < rho y) ->
+  o_exfloat o = true -> (1 < length (heavy_atoms D m))%nat ->
+  rename_mol D rho m' = delete_floating D m ->
+  match run D C fuel o m', run D C fuel o m with
+  | Ok st', Ok st => forall counts bits req mask,
+      fingerprint_query o counts bits st req (map rho mask) = fingerprint_query o counts bits st' req mask
+  | Raises e', Raises e => e' = e
+  | _, _ => False
+  end.
+Proof. exact deleted_renumbered_same_fingerprints. Qed.
+Print Assumptions deleted_renumbered_same_fingerprints.
 
 (* ------------------------------------------------------------------------------------------------ *)
 (* floating heavy atoms, exclude_floating = False: they contribute their own identifiers              *)
@@ -202,6 +248,29 @@ Proof.
   split; [reflexivity|]. split.
   - simpl. repeat constructor; simpl; intuition discriminate.
   - vm_compute. repeat split; try reflexivity. right; right; right; right; left; reflexivity.
+Qed.
+
+(* sodium in the middle of the index range: deleting it makes RDKit renumber 2,3 -> 1,2 *)
+Module Ex2.
+Import Ex.
+Definition na_mid : mol ZD :=
+  mkmol ZD [C0; mkatom ZD 1 11 0 0 0 0 22 1 0 0 (P 6000 5000 3000);
+            mkatom ZD 2 6 2 4 4 2 12 0 0 0 (P 1500 0 0); mkatom ZD 3 8 1 2 2 1 15 0 0 0 (P 2000 1300 0)]
+        [(0, 2, BtSingle); (2, 3, BtSingle)] 1000000.
+Definition renumbered : mol ZD :=
+  mkmol ZD [C0; mkatom ZD 1 6 2 4 4 2 12 0 0 0 (P 1500 0 0); mkatom ZD 2 8 1 2 2 1 15 0 0 0 (P 2000 1300 0)]
+        [(0, 1, BtSingle); (1, 2, BtSingle)] 1000000.
+Definition rho := extend [0; 2; 3].
+End Ex2.
+
+Example deleted_renumbered_nonvacuous :
+  ssorted [0; 2; 3] /\
+  (rename_mol ZD Ex2.rho Ex2.renumbered = delete_floating ZD Ex2.na_mid) /\
+  (1 < length (heavy_atoms ZD Ex2.na_mid))%nat /\
+  (is_ok (run ZD e3fp_consts 20 Ex.on Ex2.renumbered) = true) /\
+  Ex2.renumbered <> delete_floating ZD Ex2.na_mid.
+Proof.
+  split; [repeat constructor|]. vm_compute. repeat split; try reflexivity; try discriminate; lia.
 Qed.
 
 Example all_floating_nonvacuous :
